@@ -285,3 +285,25 @@ Lemma unselected_location_is_irrelevant (l1 l2 : list (Q * D)) (p : Q * D) s dfl
   map (fun i => nth i (l1 ++ l2) dflt) (sel (map fst (l1 ++ l2)) s).
 Proof. intros H. rewrite !sel_values, !filter_app. simpl. rewrite H. reflexivity. Qed.
 End SelValues.
+
+(* ---- C16: acceptance against dictionary order ---- *)
+Section ValidPerm.
+Context {B : Type}.
+(* acceptance does not depend on the order of the dictionary entries *)
+Lemma usable_perm (known : B -> bool) xs (secs secs' : @sections B) : Permutation secs secs' -> usable known xs secs -> usable known xs secs'.
+Proof.
+  intros Hp (H1 & H2 & H3).
+  assert (Hs: Permutation (stretches_all secs) (stretches_all secs')) by (apply flat_map_perm, Hp).
+  split; [|split].
+  - intros bl Hin. apply H1. eapply Permutation_in; [apply Permutation_sym, Hp|exact Hin].
+  - intros bs Hin. apply H2. eapply Permutation_in; [apply Permutation_sym, Hs|exact Hin].
+  - eapply Permutation_NoDup; [|exact H3].
+    etransitivity; [apply ix_all_perm|]. etransitivity; [|apply Permutation_sym, ix_all_perm]. apply flat_map_perm, Hs.
+Qed.
+Lemma validate_perm (known : B -> bool) xs (secs secs' : @sections B) : Permutation secs secs' -> validate known xs secs = validate known xs secs'.
+Proof.
+  intros Hp. destruct (validate known xs secs) eqn:E1, (validate known xs secs') eqn:E2; try reflexivity.
+  - apply validate_iff_usable in E1. apply (usable_perm known xs secs secs' Hp), validate_iff_usable in E1. congruence.
+  - apply validate_iff_usable in E2. apply (usable_perm known xs secs' secs (Permutation_sym Hp)), validate_iff_usable in E2. congruence.
+Qed.
+End ValidPerm.
